@@ -23,10 +23,12 @@ const (
 	sWaitDone   // first do returns Wait{} (waited status Done)
 	sAt         // task is scheduled At(now+1h) at creation
 	sUndoWait   // do ok; first undo returns Wait{WaitedStatus: Undone} (undo needs a reboot)
+	sLogErrFailUndo // do logs an error it ignores (t.Errorf) and succeeds; undo fails with a different error
+	sWaitDo         // first do returns Wait{WaitedStatus: Do}: "run me again from the start once the wait is resolved"
 )
 
 var scriptNames = map[script]string{sOK: "ok", sFailDo: "fail-do", sFailUndo: "fail-undo", sNoUndo: "no-undo", sRetryOnce: "retry-once",
-	sRetryAfter: "retry-after-1h", sWaitDone: "wait-then-done", sAt: "at-1h", sUndoWait: "undo-waits"}
+	sRetryAfter: "retry-after-1h", sWaitDone: "wait-then-done", sAt: "at-1h", sUndoWait: "undo-waits", sLogErrFailUndo: "log-error-then-fail-undo", sWaitDo: "wait-then-do-again"}
 
 func (s script) String() string { return scriptNames[s] }
 
@@ -262,7 +264,7 @@ func (w *world) result(i int, phase string, tb *tomb.Tomb) error {
 	}
 	sc := w.cfg.Scripts[i]
 	if phase == "undo" {
-		if sc == sFailUndo {
+		if sc == sFailUndo || sc == sLogErrFailUndo {
 			return fmt.Errorf("undo-boom-%d", i)
 		}
 		if sc == sUndoWait && w.retries[i] == 0 {
@@ -272,6 +274,12 @@ func (w *world) result(i int, phase string, tb *tomb.Tomb) error {
 		return nil
 	}
 	switch sc {
+	case sLogErrFailUndo:
+		// like hookstate for IgnoreError hooks: log the failure, carry on
+		w.st.Lock()
+		w.tasks[i].Errorf("ignored-failure-%d", i)
+		w.st.Unlock()
+		return nil
 	case sFailDo:
 		return fmt.Errorf("boom-%d", i)
 	case sRetryOnce:
@@ -289,6 +297,11 @@ func (w *world) result(i int, phase string, tb *tomb.Tomb) error {
 		if w.retries[i] == 0 {
 			w.retries[i]++
 			return &Wait{Reason: "verif"}
+		}
+	case sWaitDo:
+		if w.retries[i] == 0 {
+			w.retries[i]++
+			return &Wait{Reason: "verif-redo", WaitedStatus: DoStatus}
 		}
 	}
 	return nil
